@@ -387,7 +387,7 @@ func c13Probe(c *ipa.IPAConfig, seed int64) string {
 func init() {
 	core.Register(&core.Check{
 		ID: "C13", Level: "model_checking",
-		Rule:   "explicit-state search on the fingerprint of everything shared and mutable (deep reflect/unsafe hash of the IPAConfig incl. all precomputed tables, and of every package-level variable: generator, identities, labels, moduli, sqrt tables ...): a menu of 27 API calls with fresh arguments is applied from every reachable state; after EVERY call the shared fingerprint must equal the initial one (on a pure tree the state space is one state with 27 self-loops and the search completes), every caller-supplied argument must be bit-identical to its pre-call deep copy up to slice capacity (commitments given to CreateMultiProof may only change representation), and each call's result digest must equal its result on a fresh process state; then ALL histories of depth 2 (3 thorough) over the menu with the same checks and a probe call at the end; a state is a distinct shared fingerprint, a transition one API call",
+		Rule:   "explicit-state search on the fingerprint of everything shared and mutable (deep reflect/unsafe hash of the IPAConfig incl. all precomputed tables, and of every package-level variable: generator, identities, labels, moduli, sqrt tables ...): a menu of 27 API calls with fresh arguments is applied from every reachable state; after EVERY call the shared fingerprint must equal the initial one (on a pure tree the state space is one state with 27 self-loops and the search completes), every caller-supplied argument must be bit-identical to its pre-call deep copy up to slice capacity (commitments given to CreateMultiProof may only change representation), and each call's result digest must equal its result on a fresh process state; the same argument buffers refilled with different content must give the results of fresh arguments (nothing remembered per address); then ALL histories of depth 2 (3 thorough) over the menu with the same checks and a probe call at the end; a state is a distinct shared fingerprint, a transition one API call",
 		Assume: []string{"the fingerprint covers memory reachable from the config and from the exported/unexported package variables of go-ipa (gnark-crypto internals are outside)", "result digests are deterministic functions of the inputs (established by C03)"},
 		Units:  c13Units,
 	})
